@@ -722,3 +722,49 @@ def reach_assuming(cfg: CFG, start: Node, assume: dict[str, bool], labels_exclud
                         s2.setdefault(atxt, pol)
             push(t, s2)
     return set(states)
+
+
+# ---------------------------------------------------------------------------- stale aliases of a re-bound attribute
+
+
+def stale_alias_reads(cfg: CFG, attr: str, labels_excluded: Iterable[str] = ("exc", "cancel")) -> list[tuple[ast.AST, ast.AST, ast.AST]]:
+    """(alias definition, re-binding statement, stale use) triples: a local is bound to `<x>.<attr>` (or to something
+    read through it), `<x>.<attr> = …` is executed afterwards, and the local is read after that without having been bound
+    again — it still refers to the object the attribute held before.  Loop back edges count: an alias captured before a
+    loop is stale in the iteration after the one that re-binds the attribute."""
+    fn = cfg.fn
+    lx = tuple(labels_excluded)
+    rebinds = [s_ for s_ in ast.walk(fn) if isinstance(s_, (ast.Assign, ast.AnnAssign)) for t in (s_.targets if isinstance(s_, ast.Assign) else [s_.target])
+               if isinstance(t, ast.Attribute) and t.attr == attr and isinstance(t.value, ast.Name)]
+    if not rebinds:
+        return []
+    roots = {t.value.id for s_ in rebinds for t in (s_.targets if isinstance(s_, ast.Assign) else [s_.target]) if isinstance(t, ast.Attribute) and t.attr == attr}
+    out = []
+    for d in ast.walk(fn):
+        if not (isinstance(d, (ast.Assign, ast.AnnAssign)) and getattr(d, "value", None) is not None):
+            continue
+        tg = d.targets[0] if isinstance(d, ast.Assign) and len(d.targets) == 1 else (d.target if isinstance(d, ast.AnnAssign) else None)
+        if not isinstance(tg, ast.Name):
+            continue
+        reads = [x for x in ast.walk(d.value) if isinstance(x, ast.Attribute) and x.attr == attr and isinstance(x.value, ast.Name) and x.value.id in roots]
+        if not reads:
+            continue
+        dn = cfg.nodes_of(d)
+        if not dn:
+            continue
+        # every binding of the alias name re-synchronises it
+        resync = [n for x in ast.walk(fn) if isinstance(x, (ast.Assign, ast.AnnAssign, ast.AugAssign)) for t in ([x.target] if not isinstance(x, ast.Assign) else x.targets)
+                  if isinstance(t, ast.Name) and t.id == tg.id for n in cfg.nodes_of(x)]
+        after_d = cfg.reach([t for n in dn for lab, t in cfg.succ[n] if lab not in lx], blocked=resync, labels_excluded=lx)
+        for r in rebinds:
+            rn = [n for n in cfg.nodes_of(r) if n in after_d]
+            if not rn:
+                continue
+            after_r = cfg.reach([t for n in rn for lab, t in cfg.succ[n] if lab not in lx], blocked=resync, labels_excluded=lx)
+            for u in ast.walk(fn):
+                if isinstance(u, ast.Name) and u.id == tg.id and isinstance(u.ctx, ast.Load):
+                    st = enclosing_stmt(u)
+                    if any(n in after_r for n in cfg.nodes_of(st)) or any(n in after_r for n in cfg.node_of_containing(u)):
+                        out.append((d, r, u))
+                        break
+    return out
